@@ -279,6 +279,10 @@ void pv_set_rand_prng(void);
 
 /* API wrappers: record call/return, set the current-api marker */
 void pv_api_inject(const polyseed_dependency* d);
+#define PV_DEP_ABI_BYTES (8 * sizeof(void (*)(void)))     /* sizeof(polyseed_dependency) at the pinned release */
+void pv_api_inject_raw(const polyseed_dependency* d);
+void pv_premain_judge(const char* prop, unsigned what);
+char* pv_map_repeated(uint64_t n, uint64_t* maplen);   /* n bytes of 'a' + terminator backed by one 2 MiB chunk mapped repeatedly; munmap(ptr, *maplen) */
 int pv_api_enable_features(unsigned mask);
 polyseed_status pv_api_create(unsigned features, polyseed_data** out);
 void pv_api_free(polyseed_data* s);
